@@ -216,10 +216,12 @@ class CoNode:
     """a client/server association in state Open on coroutinised real code and stand-in primitives"""
 
     def __init__(self, role="CLIENT", lines=False, watchdog=10 ** 6):
-        from vf.standin import diameter
+        from vf.standin import diameter, _forget_identifiers
         K = build(lines)
         self.K = K
-        self.d = diameter(role, 1, watchdog)
+        import copy
+        self.d = copy.copy(diameter(role, 1, watchdog))      # a private (shallow) copy: the cached object stays untouched
+        _forget_identifiers()
         self.d._base = self.d.get_base_messages()
         self.d.__class__ = K[S.Diameter]
         a = S.DiameterAssociation.__new__(K[S.DiameterAssociation])
